@@ -1483,6 +1483,7 @@ func TestVerifC06(t *testing.T) {
 				if err != nil {
 					t.Fatalf("corpus line %q: %v", ln, err)
 				}
+				cf.variant = zzverif.EnvInt("VERIF_C06_VARIANT", 0) // corpus lines are variant-neutral
 				vfEmit(out, cf, ops)
 				out.Count("corpus_histories")
 			}
